@@ -56,10 +56,19 @@ def parseKind : String → Option Kind
   | "n" => some .none | "u" => some .unit | "b" => some .bytes | "ss" => some .sizedStream
   | "bs" => some .bodyStream | "xs" => some .rawStream | "xz" => some .rawSized | _ => none
 
+/-- one item token; `<n>x<len>` = n always-ready chunks of len bytes -/
+def parseItem (t : String) : Option (List RawItem) :=
+  if t == "p" then some [.pend] else if t == "e" then some [.err]
+  else match t.splitOn "x" with
+    | [c, l] =>
+      match c.toNat?, l.toNat? with
+      | some c, some l => if c > 100000 || c * l > 4000000 then none else some (List.replicate c (.chunk l))
+      | _, _ => none
+    | _ => t.toNat?.map fun n => [.chunk n]
+
 def parseItems (s : String) : Option (List RawItem) :=
   if s == "-" then some []
-  else (s.splitOn ".").mapM fun t =>
-    if t == "p" then some .pend else if t == "e" then some .err else t.toNat?.map .chunk
+  else ((s.splitOn ".").mapM parseItem).map List.flatten
 
 def parseHdrs (s : String) : Option (List Header) :=
   if s == "-" then some []
@@ -73,7 +82,7 @@ def parseClient (s : String) : Option (Option Nat × Bool) :=
     let arg := ((t.drop 1).toString).toNat?
     if t == "a" then some acc
     else if t == "h" then some (acc.1, true)
-    else if t.startsWith "b" || t.startsWith "d" then arg.map fun _ => acc
+    else if t.startsWith "b" || t.startsWith "d" || t.startsWith "q" then arg.map fun _ => acc
     else if t.startsWith "r" then arg.map fun r => (some r, acc.2)
     else none) (none, false)
 
